@@ -316,6 +316,7 @@ type wcand struct {
 	errmsg string
 	expr   string
 	hasX   bool
+	soloOnly bool   // a field type of round 4 (time.Time, nested / self-referential structs, slices, maps …): type-checked alone only
 	place  []string // Struct.Field of every occurrence in the wide package
 	g, r   map[string][]string
 }
@@ -528,6 +529,43 @@ func wideCandidates(rng *hx.Rng, thorough bool) []*wcand {
 			add(gotype, strings.Join(p, s), extra)
 		}
 	}
+	// round 4: every kind of field type the writer distinguishes (basicTypeConstructors, time.Time, named structs, pointers,
+	// slices, maps, nestings of those, references to the enclosing struct = SELF), each with tags of its kind; these are
+	// emitted and type-checked one struct at a time (texpr: emitted text and compile status against the Lean typing judgement)
+	kindTags := map[string][]string{
+		"num":   {"", "required", "min=1", "max=100", "gt=0,lte=9", "default=3", "min=1,max=5,required", "gte=2.5", "max=300", "min=-1", "max=4294967296", "max=9223372036854775808", "lt=1.0"},
+		"bool":  {"", "required", "default=true", "prefault=false", "min=1"},
+		"other": {"", "required", "min=1", "max=3", "required,min=1", "nilable"},
+		"str":   {"", "nilable,min=1", "prefault=x", "min=1.5", "gt=1", "uuid,email", "enum=a b,required", "enum=a", "regex=^a$,uuid", "default=a b c", "email,email"},
+	}
+	kinds := []struct{ ty, cls string }{
+		{"int8", "num"}, {"int16", "num"}, {"int32", "num"}, {"uint", "num"}, {"uint8", "num"}, {"uint16", "num"}, {"uint32", "num"}, {"uint64", "num"},
+		{"float32", "num"}, {"*float32", "num"}, {"*int8", "num"}, {"*uint64", "num"}, {"int", "num"}, {"float64", "num"}, {"*int64", "num"},
+		{"bool", "bool"}, {"*bool", "bool"}, {"string", "str"}, {"*string", "str"},
+		{"complex128", "other"}, {"time.Time", "other"}, {"*time.Time", "other"}, {"[]time.Time", "other"}, {"Inner", "other"}, {"*Inner", "other"}, {"[]Inner", "other"}, {"[]*Inner", "other"},
+		{"map[string]Inner", "other"}, {"map[string]*Inner", "other"}, {"[]string", "other"}, {"[]*string", "other"}, {"[][]int", "other"}, {"*[]int", "other"}, {"*[]*Inner", "other"},
+		{"map[string]int", "other"}, {"map[string][]int", "other"}, {"map[string]map[string]bool", "other"}, {"*map[string]string", "other"}, {"map[int]string", "other"}, {"**int", "other"},
+		{"*SELF", "other"}, {"[]SELF", "other"}, {"[]*SELF", "other"}, {"map[string]SELF", "other"}, {"map[string]*SELF", "other"}, {"[][]*SELF", "other"}, {"*[]SELF", "other"},
+	}
+	for _, k := range kinds {
+		tags := kindTags[k.cls]
+		if !thorough && k.cls == "num" { // quick: a rotating third of the numeric tags per type
+			var sub []string
+			for i, t := range tags {
+				if (i+len(k.ty)+int(rng.Intn(3)))%3 == 0 || i < 2 {
+					sub = append(sub, t)
+				}
+			}
+			tags = sub
+		}
+		for _, t := range tags {
+			if seen[k.ty+"\x00"+t] {
+				continue
+			}
+			add(k.ty, t, nil)
+			cs[len(cs)-1].soloOnly = true
+		}
+	}
 	return cs
 }
 
@@ -581,11 +619,23 @@ func runWide(o *hx.Out, tmp, gen string, rng *hx.Rng, thorough bool) {
 	dirS := filepath.Join(tmp, "ws")
 	os.MkdirAll(dirS, 0o755)
 	var f [2]strings.Builder
-	for i := range f {
-		f[i].WriteString("package main\n\n")
-	}
 	for _, c := range cs {
+		c.gotype = strings.ReplaceAll(c.gotype, "SELF", fmt.Sprintf("S%d", c.k))
+		if c.tag == "" { // an untagged field is only looked at under a //go:generate directive
+			fmt.Fprintf(&f[c.k%2], "//go:generate gozodgen\ntype S%d struct {\n\tF %s\n}\n\n", c.k, c.gotype)
+			continue
+		}
 		fmt.Fprintf(&f[c.k%2], "type S%d struct {\n\tF %s %s\n}\n\n", c.k, c.gotype, structTag(c.tag))
+	}
+	f[0].WriteString("type Inner struct{ A string }\n\n")
+	for i := range f {
+		head := "package main\n\n"
+		if strings.Contains(f[i].String(), "time.Time") {
+			head += "import \"time\"\n\n"
+		}
+		body := f[i].String()
+		f[i].Reset()
+		f[i].WriteString(head + body)
 	}
 	os.WriteFile(filepath.Join(dirS, "cells_a.go"), []byte(f[0].String()), 0o644)
 	os.WriteFile(filepath.Join(dirS, "cells_b.go"), []byte(f[1].String()), 0o644)
@@ -641,7 +691,7 @@ func runWide(o *hx.Out, tmp, gen string, rng *hx.Rng, thorough bool) {
 	// ---- wide: several files, several structs per file, many fields per struct, the same tag more than once
 	var okc []*wcand
 	for _, c := range cs {
-		if c.solo == "ok" {
+		if c.solo == "ok" && !c.soloOnly {
 			okc = append(okc, c)
 		}
 	}
@@ -719,8 +769,16 @@ func runWide(o *hx.Out, tmp, gen string, rng *hx.Rng, thorough bool) {
 	for _, c := range cs {
 		o.Emit(fmt.Sprintf("c13 wcompile %s %s %s # struct S%d { F %s %s } err=%q expr=%s", c.gotype, c.names, runes(c.tag), c.k, c.gotype, structTag(c.tag), c.errmsg, c.expr), c.solo)
 		o.Count("wcompile:" + c.solo)
-		if c.hasX {
+		if c.hasX && !c.soloOnly {
 			o.Emit(fmt.Sprintf("c13 wexpr %s %s %s # F %s %s -> %s", c.gotype, c.names, runes(c.tag), c.gotype, structTag(c.tag), c.expr), "expr="+runes(c.expr))
+		}
+		if c.hasX {
+			st := c.solo
+			if st == "schema-panics" {
+				st = "ok" // the file type-checks
+			}
+			o.Emit(fmt.Sprintf("c13 texpr %s %s %s S%d # type S%d struct { F %s %s } -> %s   %s", c.gotype, c.names, runes(c.tag), c.k, c.k, c.gotype, structTag(c.tag), c.expr, c.errmsg), "st="+st+" expr="+runes(c.expr))
+			o.Count("texpr:" + st)
 		}
 	}
 	if wgen != "ok" {
